@@ -685,6 +685,10 @@ func off[S any, F any](s *S, f *F) uintptr { return uintptr(unsafe.Pointer(f)) -
         self.w('\tfor i, t := range again {\n\t\tgot2[i] = rt.Got3{Key: t.FieldKey(), Name: t.Name, Type: t.Type, Pure: t.PureType, ID: t.ID, Off: t.RootOffs + t.Offset}\n\t}')
         self.w('\tc.Req += " again, after the caller reordered and overwrote the listing it was given"')
         self.w('\trt.CheckListing("C03", c, new(%s), got2, want)' % S)
+        # no names at all, however the caller's (empty) slice of names came about: the whole listing
+        self.w('\tfor _, none := range [][]string{nil, {}, make([]string, 0, 4), []string{"x"}[:0]} {')
+        self.w('\t\trt.CheckIDsF("C03", c, "New(names...) with an empty list of names", func() []int { return hseq.FMap(hseq.New[%s](none...), func(t hseq.Type[%s]) int { return t.ID }) }, rt.Iota(%d))' % (S, S, len(L)))
+        self.w('\t}')
         self.case_end('C03/listing/%s' % S, len(L) > 1)
 
         # the same type names declared again in a local scope with another layout: both print as main.<name>, so
@@ -1126,6 +1130,9 @@ func off[S any, F any](s *S, f *F) uintptr { return uintptr(unsafe.Pointer(f)) -
             self.w('\tps := &g.s\n\tpps := &ps')
             self.w('\tother := new(struct {\n\t\tq [4]uint64\n\t\tw string\n\t})')
             self.w('\tsl := []%s{g.s, g.s}\n\tarr := &[1]%s{g.s}\n\tmp := map[string]%s{"a": g.s}\n\tchn := make(chan %s, 1)\n\t_, _, _, _ = sl, arr, mp, chn' % (S, S, S, S))
+            # types Go lets one CONVERT to *S: a pointer to a defined type over S, a defined pointer type over *S
+            self.w('\ttype draft %s\n\ttype ref *%s' % (S, S))
+            self.w('\tdr := new(struct {\n\t\tpre  [32]byte\n\t\ts    draft\n\t\tpost [32]byte\n\t})\n\tdr.s = draft(g.s)\n\trf := ref(ps)')
             for what, arg, m, sz in (
                 ('the struct by value', 'g.s', 'mem', 'size'), ('pointer to pointer', 'pps', 'mem', 'size'), ('pointer to another struct', 'other', 'unsafe.Pointer(other)', 'unsafe.Sizeof(*other)'),
                 ('untyped nil', 'nil', 'nil', '0'), ('an int', '42', 'nil', '0'), ('unsafe.Pointer to the struct', 'unsafe.Pointer(ps)', 'mem', 'size'),
@@ -1133,7 +1140,9 @@ func off[S any, F any](s *S, f *F) uintptr { return uintptr(unsafe.Pointer(f)) -
                 ('a slice of the struct', 'sl', 'unsafe.Pointer(&sl[0])', '2*unsafe.Sizeof(sl[0])'), ('pointer to an array of the struct', 'arr', 'unsafe.Pointer(arr)', 'unsafe.Sizeof(*arr)'),
                 ('typed nil *int', '(*int)(nil)', 'nil', '0'), ('typed nil pointer to pointer', '(**%s)(nil)' % S, 'nil', '0'),
                 ('typed nil pointer to another struct', '(*struct {\n\t\tq [4]uint64\n\t\tw string\n\t})(nil)', 'nil', '0'),
-                ('typed nil pointer to a look-alike', '(*xa.Box)(nil)', 'nil', '0')):
+                ('typed nil pointer to a look-alike', '(*xa.Box)(nil)', 'nil', '0'),
+                ('pointer to a defined type over the struct (convertible to *S, not *S)', '&dr.s', 'unsafe.Pointer(dr)', 'unsafe.Sizeof(*dr)'),
+                ('a defined pointer type over *S', 'rf', 'mem', 'size'), ('typed nil of a defined pointer type', 'ref(nil)', 'nil', '0')):
                 self.w('\trt.WrongArg("C02", c, %s, %s, %s, func() { l.Gett(%s) })' % (q('Gett(' + what + ')'), m, sz, arg))
                 self.w('\trt.WrongArg("C02", c, %s, %s, %s, func() { l.Putt(%s, v) })' % (q('Putt(' + what + ')'), m, sz, arg))
             # containers the run time owns: only read through them (a silently accepted write could corrupt the run time)
@@ -1246,6 +1255,13 @@ func off[S any, F any](s *S, f *F) uintptr { return uintptr(unsafe.Pointer(f)) -
                     self.w('\tvar l optics.Lens[%s, %s]' % (S, Bt))
                     self.w('\tif pn, msg := rt.Derive(func() { l = %s }); pn {\n\t\trt.Refused("C04", c, msg)\n\t\trt.End(c, %s, true)\n\t\treturn\n\t}' % (expr, q(req)))
                     self.emit_view_optic(st, e, Bt, '%s(s.%s)' % (Bt, e.sel()), 's.%s = %s(unbox[%s](v))' % (e.sel(), T, Bt), vals, 'lens')
+                    if fn == 'BiMapB':
+                        # the converted value IS the stored slice (B(a) shares storage, length and capacity): what is put is what is
+                        # stored, spare capacity included
+                        self.w('\t{\n\t\ts := new(%s)\n\t\tfill_%s(s, 2)\n\t\ts.%s = make(%s, 3, 8)' % (S, S, e.sel(), T))
+                        self.w('\t\tif g := l.Get(s); len(g) != 3 || cap(g) != 8 || &g[0] != &s.%s[0] {\n\t\t\trt.Vio("C04", c, "bimapb-identity", fmt.Sprintf("Get returned a slice of len %%d cap %%d, the stored one has len 3 cap 8 (the converted value is the stored slice itself)", len(g), cap(g)))\n\t\t}' % e.sel())
+                        self.w('\t\tv := make(%s, 2, 9)\n\t\tl.Put(s, v)' % Bt)
+                        self.w('\t\tif f := s.%s; len(f) != 2 || cap(f) != 9 || &f[0] != &v[0] {\n\t\t\trt.Vio("C04", c, "bimapb-identity", fmt.Sprintf("Put stored a slice of len %%d cap %%d, the value put has len 2 cap 9 (exactly the converted value is written)", len(f), cap(f)))\n\t\t}\n\t}' % e.sel())
                     self.case_end('C04/%s/%s' % (S, req), True)
         # --- ForShapeK over pairwise disjoint foci
         for K in sorted(set([2, 3, r.randint(4, 9)])):
